@@ -99,8 +99,27 @@ def make_ctx(ex, st, s1, s2, window, penalty, max_step, psi_1b, psi_2b, metric):
     return (a1, o1, r, a2, o2, c, w, pen, mstep, zint(psi_1b), zint(psi_2b), m)
 
 
+class CtxValue(tuple):
+    """('dtwctx', a1, o1, r, ...) with `defs`: equalities that name the derived components
+    (window default, transformed penalty / max_step) by constants, so that W(ctx, i, j) is a legal
+    E-matching pattern (no `if` inside)."""
+    defs = ()
+
+
 def _ctx(ex, st, s1, s2, window, penalty, max_step, psi_1b, psi_2b, metric):
-    return ('dtwctx',) + make_ctx(ex, st, s1, s2, window, penalty, max_step, psi_1b, psi_2b, metric)
+    raw = make_ctx(ex, st, s1, s2, window, penalty, max_step, psi_1b, psi_2b, metric)
+    names = ['a1', 'o1', 'r', 'a2', 'o2', 'c', 'w', 'pen', 'mstep', 'p1b', 'p2b', 'metric']
+    out, defs = [], []
+    for n, t in zip(names, raw):
+        if z3.is_const(t) or z3.is_int_value(t):
+            out.append(t)
+        else:
+            k = z3.Const('ctx_' + n, t.sort())
+            defs.append(k == t)
+            out.append(k)
+    v = CtxValue(('dtwctx',) + tuple(out))
+    v.defs = defs
+    return v
 
 
 def cur_ctx(ex):
@@ -119,3 +138,123 @@ spec('InBand', z3=lambda ex, st, i, j: band(zint(i), zint(j), cur_ctx(ex)[2], cu
 spec('Cost', z3=lambda ex, st, i, j: cost_term(cur_ctx(ex), zint(i), zint(j)))
 spec('vsqrt_if', z3=lambda ex, st, metric, x: z3.If(zint(metric) == 0, vsqrt(vlit(x)), vlit(x)),
      doc='result_fn: square root for the squared-Euclidean inner distance, identity for Euclidean')
+
+
+# ---------------------------------------------------------------------------------------------
+# End-of-series psi relaxation.
+#   PsiCol(k)  : best last-column value W(i+1, c) over the rows i < k that may end the path
+#                (r-1-i <= psi_1e and the row's band reaches column c), folded top to bottom;
+#   WRowMin    : left fold of min over W(row, col), col in [lo, hi);
+#   Dend       : the value the distance is read from.
+from dvc.contracts import induction_lemma, LEMMAS
+from specs.bounds import JE, JS, WinMinf, winmin_axioms
+
+
+def _psicol_body(rec, *args):
+    ctx, p1e, k = args[:12], args[12], args[13]
+    a1, o1, r, a2, o2, c, w, pen, mstep, p1b, p2b, metric = ctx
+    i = k - 1
+    prev = rec(*ctx, p1e, k - 1)
+    cond = z3.And(p1e != 0, JE(i, r, c, w) == c, r - 1 - i <= p1e)
+    return z3.If(k <= 0, vinf, z3.If(cond, min2(prev, Wf(*ctx, i + 1, c)), prev))
+
+
+PsiColf, psicol_axioms = fuel_function('PsiCol', CTX_SORTS + [IntS, IntS], Val, _psicol_body, fuel=1)
+
+
+def _wrowmin_body(rec, *args):
+    ctx, row, lo, hi = args[:12], args[12], args[13], args[14]
+    return z3.If(hi <= lo + 1, Wf(*ctx, row, lo), min2(rec(*ctx, row, lo, hi - 1), Wf(*ctx, row, hi - 1)))
+
+
+WRowMinf, wrowmin_axioms = fuel_function('WRowMin', CTX_SORTS + [IntS, IntS, IntS], Val, _wrowmin_body, fuel=1)
+
+
+def dend_term(ctx, p1e, p2e):
+    a1, o1, r, a2, o2, c, w, pen, mstep, p1b, p2b, metric = ctx
+    lo = c - p2e          # the property statement: any end column within psi_2e of the corner
+    return z3.If(z3.And(p1e == 0, p2e == 0), Wf(*ctx, r, c),
+                 z3.If(p2e != 0, min2(WRowMinf(*ctx, r, lo, c + 1), PsiColf(*ctx, p1e, r)),
+                       min2(Wf(*ctx, r, c), PsiColf(*ctx, p1e, r))))
+
+
+THEORIES['dtw'] = lambda: w_axioms() + psicol_axioms() + wrowmin_axioms() + winmin_axioms()
+
+spec('PsiCol', z3=lambda ex, st, p1e, k: PsiColf(*cur_ctx(ex), zint(p1e), zint(k)))
+spec('WRowMin', z3=lambda ex, st, row, lo, hi: WRowMinf(*cur_ctx(ex), zint(row), zint(lo), zint(hi)))
+spec('Dend', z3=lambda ex, st, p1e, p2e: dend_term(cur_ctx(ex), zint(p1e), zint(p2e)),
+     doc='accumulated cost the distance is read from: the psi-relaxed end of the matrix')
+
+# Lemma BufFold: a window of a buffer that stores W(row, .) with a column offset folds to WRowMin.
+_ctxc = [z3.Const('bf_c%d' % i, s) for i, s in enumerate(CTX_SORTS)]
+_buf = z3.Const('bf_buf', AV)
+_off, _row, _lo, _hi, _col = z3.Ints('bf_off bf_row bf_lo bf_hi bf_col')
+induction_lemma(
+    'BufFold', _ctxc + [_buf, _off, _row, _lo], _hi, _lo + 1,
+    hyp=lambda k: z3.ForAll([_col], z3.Implies(z3.And(_lo <= _col, _col < k),
+                                               z3.Select(_buf, _off + _col) == Wf(*_ctxc, _row, _col)),
+                            patterns=[Wf(*_ctxc, _row, _col)]),
+    prop=lambda k: WinMinf(_buf, _off + _lo, _off + k) == WRowMinf(*_ctxc, _row, _lo, k),
+    patterns=lambda k: [z3.MultiPattern(WinMinf(_buf, _off + _lo, _off + k), WRowMinf(*_ctxc, _row, _lo, k))],
+    doc='the left-fold minimum of buffer cells holding W(row, lo..hi) is WRowMin(row, lo, hi)',
+    axioms=wrowmin_axioms() + winmin_axioms(), props=('C01', 'C04'))
+
+from dvc.vals import order_axioms  # noqa: E402
+
+_lo2 = z3.Int('bf_lo2')
+induction_lemma(
+    'RowAllInf', _ctxc + [_row, _lo], _hi, _lo + 1,
+    hyp=lambda k: z3.ForAll([_col], z3.Implies(z3.And(_lo <= _col, _col < k), Wf(*_ctxc, _row, _col) == vinf),
+                            patterns=[Wf(*_ctxc, _row, _col)]),
+    prop=lambda k: WRowMinf(*_ctxc, _row, _lo, k) == vinf,
+    patterns=lambda k: [WRowMinf(*_ctxc, _row, _lo, k)],
+    doc='a stretch of infinite cells folds to infinity', axioms=wrowmin_axioms(), props=('C01', 'C04'))
+induction_lemma(
+    'RowLeadInf', _ctxc + [_row, _lo, _lo2], _hi, _lo2 + 1,
+    hyp=lambda k: z3.And(_lo < _lo2, z3.ForAll([_col], z3.Implies(z3.And(_lo <= _col, _col < _lo2),
+                                                                  Wf(*_ctxc, _row, _col) == vinf),
+                                               patterns=[Wf(*_ctxc, _row, _col)])),
+    prop=lambda k: WRowMinf(*_ctxc, _row, _lo, k) == WRowMinf(*_ctxc, _row, _lo2, k),
+    patterns=lambda k: [z3.MultiPattern(WRowMinf(*_ctxc, _row, _lo, k), WRowMinf(*_ctxc, _row, _lo2, k))],
+    doc='infinite cells to the left of the band do not change the minimum over the relaxed end of the last row',
+    axioms=wrowmin_axioms() + order_axioms() + LEMMAS['RowAllInf'].axioms(), props=('C01', 'C04'))
+
+# BufFold in E-matching-friendly form: the window is given by its two end positions p, q.
+from dvc.contracts import Lemma  # noqa: E402
+from dvc.state import Obligation  # noqa: E402
+
+_p, _q = z3.Ints('bf_p bf_q')
+
+
+def _buffold2_axiom():
+    hyp = z3.And(_q - _p == _hi - _lo, _lo < _hi,
+                 z3.ForAll([_col], z3.Implies(z3.And(_lo <= _col, _col < _hi),
+                                              z3.Select(_buf, _p + (_col - _lo)) == Wf(*_ctxc, _row, _col)),
+                           patterns=[Wf(*_ctxc, _row, _col)]))
+    return [z3.ForAll(_ctxc + [_buf, _p, _q, _row, _lo, _hi],
+                      z3.Implies(hyp, WinMinf(_buf, _p, _q) == WRowMinf(*_ctxc, _row, _lo, _hi)),
+                      patterns=[z3.MultiPattern(WinMinf(_buf, _p, _q), WRowMinf(*_ctxc, _row, _lo, _hi))])]
+
+
+def _buffold2_obligations():
+    # follows from BufFold with off := p - lo
+    ax = _buffold2_axiom()[0]
+    body = ax.body()
+    # instantiate the bound variables with the constants themselves
+    inst = z3.substitute_vars(body, *reversed(_ctxc + [_buf, _p, _q, _row, _lo, _hi]))
+    off = _p - _lo
+    direct = z3.Implies(
+        z3.And(_lo < _hi, z3.ForAll([_col], z3.Implies(z3.And(_lo <= _col, _col < _hi),
+                                                        z3.Select(_buf, off + _col) == Wf(*_ctxc, _row, _col)),
+                                    patterns=[Wf(*_ctxc, _row, _col)])),
+        WinMinf(_buf, off + _lo, off + _hi) == WRowMinf(*_ctxc, _row, _lo, _hi))
+    return [Obligation('lemma:BufFold2::from-BufFold', 'lemma', [direct], inst, 'lemma:BufFold2', props=('C01', 'C04'),
+                       note='position form of BufFold (instance off = p - lo)', axioms=[])]
+
+
+def _buffold_instance_obligation():
+    return []
+
+
+LEMMAS['BufFold2'] = Lemma('BufFold2', _buffold2_axiom, _buffold2_obligations,
+                           doc='BufFold stated over the end positions of the buffer window (arithmetic-free trigger)')
